@@ -5,50 +5,80 @@ import LinfaSpec.Model.Pca
 namespace LinfaSpec.Drv.C18
 open LinfaSpec.Proto LinfaSpec.Pca
 
+/-- the statement promises *an error* for an empty dataset / an embedding size outside `1..p`, not
+which one: both guard errors are written `err Guard` (on both sides) -/
 def showErr : FitErr String → String
-  | .notEnoughSamples => "err NotEnoughSamples"
-  | .embeddingTooSmall k => s!"err EmbeddingTooSmall({k})"
+  | .notEnoughSamples => "err Guard"
+  | .embeddingTooSmall _ => "err Guard"
   | .linalg _ => "err Linalg"
 
 def showApprox (xs : List (List Float)) : String := showList2 (fun x => "~" ++ showF64c x) xs
 
-/-- `fit n= p= k= w= x= svd=ok|err sv= vt= q=`:
-the record matrix `x` (n rows of width p; `x=` empty for n = 0), the embedding size, the
-whitening flag, what the external truncated SVD returned on the centred matrix (`sv`, `vt`;
-`svd=none` when the guards reject before it is called), and query rows `q` for
-`predict` / `inverse_transform`. -/
+def parseLayout : String → Option Layout
+  | "C" => some .c | "F" => some .f | "Cs" => some .cStrided | "Fs" => some .fStrided | _ => none
+
+/-- `fit n= p= k= w= lay= form= x= svd=ok|err|panic|none raw=dense|iter sv= vt= q= t= wt=`:
+the record matrix `x` (n rows of width p; `x=` empty for n = 0) in memory layout `lay`, wrapped in a
+dataset in calling form `form` (plain / with targets / with targets and weights / view — the model
+of `fit` reads none of that), the embedding size, the whitening flag, what the external solver call
+`raw` (dense full block on `min(n,p)` pairs, or LOBPCG on `k`) returned on the centred matrix
+(`sv`, `vt`; `svd=none` when the guards reject before it is called) — the model's `leadingSvd`
+decides which of the two calls it needs and fails (`bad-op`) when the request carries the other
+one —, query rows `q` for `predict` / `inverse_transform`, and integer targets `t` / weights `wt` of
+a dataset over the query rows for `Transformer::transform` / `Predict::predict(DatasetBase)`. -/
 def handleFit (toks : List String) : Option String := do
   let n ← argNat toks "n"; let p ← argNat toks "p"; let k ← argNat toks "k"
   let w ← argNat toks "w"
+  let lay ← (arg toks "lay").bind parseLayout
+  let form ← arg toks "form"
+  if !(["plain", "targets", "weights", "view"].contains form) then none
   let x ← argF64s2 toks "x"
   let q ← argF64s2 toks "q"
+  let t ← argInts toks "t"
+  let wt ← argInts toks "wt"
   let svdTag ← arg toks "svd"
   -- the external solver panicked on the centred matrix (after both guards passed): so does `fit`
   if svdTag == "panic" ∧ (guard (ε := String) n p k).isNone then return "panic"
   if x.length ≠ n then none
   if x.any (·.length ≠ p) ∨ q.any (·.length ≠ p) then none
+  if t.length ≠ q.length ∨ wt.length ≠ q.length then none
+  let missing : List (List Float) → Nat → Except String (List Float × List (List Float)) :=
+    fun _ _ => Except.error "missing-solver-output"
   let svd : List (List Float) → Nat → Except String (List Float × List (List Float)) ←
     (match svdTag with
      | "ok" => do
+        let raw ← arg toks "raw"
         let sv ← argF64s toks "sv"; let vt ← argF64s2 toks "vt"
         if vt.length ≠ sv.length ∨ vt.any (·.length ≠ p) then none
-        some (fun _ _ => Except.ok (sv, vt))
+        let given : List (List Float) → Nat → Except String (List Float × List (List Float)) :=
+          fun _ _ => Except.ok (sv, vt)
+        match raw with
+        | "dense" => some (leadingSvd given missing p)
+        | "iter" => some (leadingSvd missing given p)
+        | _ => none
      | "err" => some (fun _ _ => Except.error "linalg")
      | "none" => some (fun _ _ => Except.error "svd-not-expected")
      | _ => none)
-  match fit (α := Float) 1e-8 svd k (w != 0) p x with
+  match fit (α := Float) 1e-8 svd k (w != 0) lay p x with
   | .error e =>
-    -- the harness sends svd=none exactly when the implementation rejected before the SVD
+    -- the harness sends svd=none exactly when the implementation rejected before the SVD;
+    -- a solver output of the branch the model does not take is a malformed request
     match e, svdTag with
     | .linalg _, "none" => none
+    | .linalg "missing-solver-output", _ => none
     | e, _ => some (showErr e)
   | .ok m =>
     let z := transform m q
     let inv := inverseTransform m z
+    let ds : Dataset Float (List Int) (List Int) := { records := q, targets := t, weights := wt }
+    let td := transformDataset m ds
+    let pd := predictDataset m ds []
     some (s!"ok mean={showList showF64c m.mean} sigma={showList showF64c m.sigma} " ++
       s!"comp={showList2 showF64c m.embedding} ev={showList showF64c (explainedVariance m)} " ++
       s!"evr={showList (fun x => "~" ++ showF64c x) (explainedVarianceRatio m)} " ++
-      s!"z={showApprox z} inv={showApprox inv}")
+      s!"z={showApprox z} inv={showApprox inv} " ++
+      s!"td={showApprox td.records}/{showList toString td.targets}/{showList toString td.weights} " ++
+      s!"pd={showList2 showF64c pd.records}/{showApprox pd.targets}/{showList toString pd.weights}")
 
 def handle (toks : List String) : String :=
   let r := match toks with
